@@ -872,6 +872,24 @@ func TestC17Mgmt(t *testing.T) {
 	evid.Check(t, rec, genCase, execC17(t))
 }
 
+// The same executor on behalf of C06 and C07, whose anchors include the management modules
+// through which routes are registered (fw/mgmt/rib.go) and the cache capacity is set
+// (fw/mgmt/cs.go): histories dominated by rib/register, rib/unregister and faces/destroy,
+// respectively by cs/config, judged by the same reference (every field of every route in the
+// RIB, its direct FIB effect, the capacity in force, the datasets).
+func TestC06Mgmt(t *testing.T) {
+	rec := evid.New("C06", "TestC06Mgmt", "rib-dominated profile of: "+ruleC17)
+	evid.Check(t, rec, genCaseRib, execC17(t))
+}
+
+func TestC07Mgmt(t *testing.T) {
+	rec := evid.New("C07", "TestC07Mgmt", "cs/config-dominated profile of: "+ruleC17)
+	evid.Check(t, rec, genCaseCs, execC17(t))
+}
+
+func TestC06MgmtReplay(t *testing.T) { evid.Replay(t, "TestC06Mgmt", execC17(t)) }
+func TestC07MgmtReplay(t *testing.T) { evid.Replay(t, "TestC07Mgmt", execC17(t)) }
+
 func TestC17MgmtReplay(t *testing.T) {
 	replayShim(t, "TestC17Mgmt")
 	evid.Replay(t, "TestC17Mgmt", execC17(t))
